@@ -4,6 +4,7 @@ import (
 	"bytes"
 	stdjson "encoding/json"
 	"fmt"
+	"math"
 	"reflect"
 	"runtime"
 	"runtime/debug"
@@ -256,6 +257,36 @@ func malformedClass(b []byte) string {
 }
 
 // c01Type picks the type of case (batch, k): seed-independent in the quick tier.
+// c01KeyKindMaps: one map per key kind the encoder has a routine for (every integer width, signed
+// and unsigned, uintptr, string, named kinds), keys at the edges of the kind's range, as a value,
+// behind a pointer, as a member, inside interface{} and nested.
+func c01KeyKindMaps() []any {
+	type named16 uint16
+	type namedS string
+	var out []any
+	add := func(m any) {
+		out = append(out, m, map[string]any{"in": m}, struct {
+			A int
+			M any
+		}{1, m}, []any{m})
+	}
+	add(map[int]bool{0: true, -1: false, math.MaxInt64: true, math.MinInt64: false})
+	add(map[int8]int{0: 0, -128: 1, 127: 2, -1: 3})
+	add(map[int16]string{-32768: "a", 32767: "b", 0: "c"})
+	add(map[int32][]int{math.MinInt32: {1}, math.MaxInt32: nil, -7: {}})
+	add(map[int64]any{math.MinInt64: nil, math.MaxInt64: 1.5, 42: "x"})
+	add(map[uint]bool{0: true, math.MaxUint64: false, 1 << 63: true})
+	add(map[uint8]int{0: 0, 255: 1, 128: 2})
+	add(map[uint16]bool{0: true, 443: false, 65535: true, 32768: false})
+	add(map[uint32]string{0: "a", math.MaxUint32: "b", 1 << 31: "c", 7: "d"})
+	add(map[uint64]float64{0: 0, math.MaxUint64: 1, 1 << 63: 2})
+	add(map[uintptr]int{0: 0, math.MaxUint64: 1, 1 << 31: 2})
+	add(map[named16]int{1: 1, 65535: 2})
+	add(map[namedS]int{"a": 1, "<&>": 2, "": 3})
+	add(map[string]map[uint16]map[int8]bool{"x": {9: {-9: true}}})
+	return out
+}
+
 func c01Type(c *rt.Ctx, k int) (reflect.Type, string) {
 	o := gen.TypeOpts{FeatureProb: 30}
 	if c.Tier == "thorough" && k%2 == 1 {
@@ -374,6 +405,18 @@ func init() {
 						encCompare(c, 7100+si, "enc-diff", &encCfgs[ci], "direct", x, v.Type(), v, "")
 					}
 					c.NonTrivial("shadow", fmt.Sprintf("%T", x))
+				}
+			}
+			if c.Idx%64 == 13 {
+				for si, x := range c01KeyKindMaps() {
+					if !c.Cur(7300+si, fmt.Sprintf("shapes=core\nmaps of every key kind: %T", x)) {
+						continue
+					}
+					v := reflect.ValueOf(x)
+					for ci := range encCfgs {
+						encCompare(c, 7300+si, "enc-diff", &encCfgs[ci], "direct", x, v.Type(), v, "")
+					}
+					c.NonTrivial("keykind", fmt.Sprintf("%T", x), fmt.Sprint(si))
 				}
 			}
 			if c.Idx%64 == 12 {
